@@ -47,6 +47,8 @@ def build(transfer, size, thr, chunk, io, S, fault_at=-1, phase=0, limits=None, 
 
 def submit(c, transfer, size, subs, key='key'):
     m, env = c.manager, c.env
+    c.nsubmits = getattr(c, '_nsub', 0) + 1
+    c._nsub = c.nsubmits
     if transfer == 'up-path':
         return m.upload('/s/source', 'bkt', key, subscribers=subs)
     if transfer == 'up-seek':
